@@ -1,3 +1,4 @@
+import Varint.Bridge.Elias
 import Varint.Bridge.PFOR
 import Varint.Bridge.Group
 import Varint.Bridge.Delta
@@ -189,5 +190,18 @@ theorem c_pfor_size_bounds (xs : List Nat) (g : PFOR.Good xs) (t : Nat) (fuel : 
   · exact Varint.Bridge.PFOR.pforSize_eq _ hmin (by rw [f.count_eq]; exact hlen) f.width_le
       (by have := f.exc_le; omega) fuel (by have := f.exc_le; omega)
   · rw [Varint.Bridge.PFOR.pforMarker_eq _ (by have := f.width_le; omega), f.marker_eq]
+
+
+/-- **the Elias code-length functions on the translated C** (`floorLog2`'s shift loop, `varintEliasGammaBits`,
+    `varintEliasDeltaBits`): for every value 1 ≤ v < 2^64 they return exactly the number of bits of the model's gamma /
+    delta code, at most 127 / 76 — the per-value constants behind `varintEliasGammaMaxBytes` / `DeltaMaxBytes`. Fuel ≥ 65. -/
+theorem c_elias_code_lengths (v : Nat) (h1 : 1 ≤ v) (h64 : v < 2 ^ 64) (fuel : Nat) (hf : 65 ≤ fuel) :
+    Varint.Gen.C.eliasGammaBits fuel v = some (Elias.gamma v).length ∧
+    Varint.Gen.C.eliasDeltaBits fuel v = some (Elias.delta v).length ∧
+    (Elias.gamma v).length ≤ 127 ∧ (Elias.delta v).length ≤ 76 := by
+  obtain ⟨a, b, c, d⟩ := elias_code_lengths v h1 h64
+  obtain ⟨g1, g2⟩ := Varint.Bridge.Elias.eliasBits_eq v fuel h64 hf
+  rw [a, b]
+  exact ⟨g1, g2, c, d⟩
 
 end Varint.Props.C03
